@@ -1,7 +1,8 @@
 """C01 — the assembled image is the ISA encoding of the source; layout never changes it."""
-import random
-import asmgen, asmcommon
+import os, random
+import asmgen, asmcommon, clicommon
 from core import log
+from props import C06
 
 # parts of an assembly result the property does not speak about: a difference in these alone breaks the
 # correspondence but is not an input on which the property fails (reported with no-failing-input-found)
@@ -59,10 +60,10 @@ def correspondence(ctx, violations, known_hits):
     profiles = ("debug",) if ctx.tier == "quick" else ("debug", "release")
     r = asmcommon.run_asm_cases(ctx, cases, tags, violations, profiles, aux=AUX,
                                 prop_note="MODEL = SPEC on accepted programs is proved (C01 theorems); an accepted image that differs is a wrong encoding")
-    # layout independence, checked on the model's own answers is implied by equality with the model;
+    cli = compile_stage(ctx, violations)
     ctx.cleanup()
     return {
-        "evaluations": r["evaluations"], "distinct_nontrivial": len(r["sigs"]),
+        "evaluations": r["evaluations"] + cli["compiles"], "real_binary_compile": cli, "distinct_nontrivial": len(r["sigs"]),
         "rule": "random valid programs over the whole instruction/trap/directive set (labels before/after/on the use, "
                 "literal PC offsets at the field extremes, origins at the 16-bit boundaries, .break placements), each rendered "
                 "in several random layouts (keyword case, r/R, #dec/#unsigned/xHEX/0xHEX/x-HEX/leading zeros/+, "
@@ -74,5 +75,67 @@ def correspondence(ctx, violations, known_hits):
     }
 
 
+def compile_stage(ctx, violations):
+    """The user-facing observation point: the bytes `lace compile` leaves at its destination.  Each program is compiled by
+    the real binary in every layout, one after the other ONTO THE SAME destination (as after an edit of the source), the
+    first time onto a file that already holds a longer object file: after every compile the file must be exactly the
+    model's image of that text - origin word, then one big-endian word per statement, nothing else."""
+    exe = ctx.cli()
+    rnd = random.Random(ctx.seed + 101)
+    nprog = 40 if ctx.tier == "quick" else 600
+    progs = []
+    for i in range(nprog):
+        stack = rnd.random() < 0.3
+        items = asmgen.gen_program(rnd, stack=stack, want_valid=True)
+        texts = [asmgen.render(rnd, items, style=st, kwcase=("upper" if st == "plain" else None)) for st in ("random", "commas", "comments", "plain")]
+        # a shorter edit of the same program at the end of the chain: the file must shrink with it
+        texts.append("halt\n")
+        progs.append((1 if stack else 0, texts))
+    flat = [(f, t) for f, ts in progs for t in ts]
+    model = ctx.run_model([C06.obj_case(f, t) for f, t in flat], tag="c01obj")
+    d = clicommon.fresh_dir(ctx, "c01cli")
+    stale = bytes.fromhex("3000" + "f026" * 200 + "f025")
+
+    def job(pi):
+        def run():
+            feat, texts = progs[pi]
+            sub = os.path.join(d, str(pi)); os.makedirs(sub, exist_ok=True)
+            dest = os.path.join(sub, "out.lc3")
+            open(dest, "wb").write(stale)
+            out = []
+            for k, t in enumerate(texts):
+                with open(os.path.join(sub, "p.asm"), "w", encoding="utf-8", newline="") as fh:
+                    fh.write(t)
+                before = open(dest, "rb").read() if os.path.exists(dest) else None
+                rc, so, se = clicommon.run_cli(exe, ["compile", "p.asm", "out.lc3"] + (["-f", "stack"] if feat else []), sub)
+                after = open(dest, "rb").read() if os.path.exists(dest) else None
+                out.append((rc, before, after))
+            return out
+        return run
+
+    res = clicommon.parallel([job(i) for i in range(len(progs))])
+    n, bad, base = 0, 0, 0
+    for pi, outs in enumerate(res):
+        feat, texts = progs[pi]
+        for k, (rc, before, after) in enumerate(outs):
+            mo = [int(x, 16) for x in model[base + k][0].split()]
+            want = bytes(mo[2:2 + mo[1]]) if mo[0] == 0 else None
+            n += 1
+            good = (rc == 0 and want is not None and after == want) or (rc != 0 and want is None and after == before)
+            if not good:
+                bad += 1
+                if bad <= 4:
+                    violations.append({"kind": "compiled-object-differs", "feature_stack": feat, "source": texts[k], "step_in_chain": k,
+                                       "exit": rc, "destination_before": before.hex()[:400] if before is not None else None,
+                                       "destination_after": after.hex()[:400] if after is not None else None,
+                                       "model_exit": mo[0], "model_bytes": want.hex()[:400] if want is not None else None})
+        base += len(texts)
+    return {"programs": len(progs), "compiles": n, "mismatches": bad,
+            "rule": "real `lace compile` of each program in 4 layouts + a shorter edit, successively onto one destination that first holds a longer object file; destination bytes vs the model's image"}
+
+
 def replay(ctx, payload):
+    if payload.get("kind") == "compiled-object-differs":
+        log(str({k: payload.get(k) for k in ("kind", "step_in_chain", "exit", "destination_after", "model_bytes")}))
+        return 1
     return asmcommon.replay_asm(ctx, payload)
